@@ -51,7 +51,10 @@ TInit == /\ serial = 0 /\ req = <<>> /\ slots = <<>> /\ ev = [e |-> "init"] /\ o
 Erase(m) == IF "atext" \in DOMAIN m THEN
                 (IF "cls" \in DOMAIN m THEN [m EXCEPT !.atext = "*", !.cls = "*"] ELSE [m EXCEPT !.atext = "*"])
             ELSE m
-ErasedOut(o) == [k \in 1..Len(o) |-> Erase(o[k])]
+\* B models iauth_core + iauth_xquery: what iauth_class adds to the output (its own lines of the configuration report, U
+\* lines) is left out of the comparison with B, and the class field is erased
+OfB(m) == ~(m.k = "A" /\ m.mod # "xquery") /\ m.k # "U"
+ErasedOut(o) == LET p == SelectSeq(o, OfB) IN [k \in 1..Len(p) |-> Erase(p[k])]
 
 TReset == /\ TraceLog[l].e = "Reset"
           /\ LET st == FreshSvc(FileOf(TraceLog[l].cfg.svcs)) IN
